@@ -27,13 +27,13 @@ pub fn huge_cases(prop: u8) -> Vec<HugeCase> {
     let kinds: &[Kind] = match prop {
         1 => &[Kind::PQ],
         2 => &[Kind::DPQ],
-        3 | 8 => &[Kind::PQ, Kind::DPQ],
+        3 | 6 | 8 => &[Kind::PQ, Kind::DPQ],
         _ => return vec![],
     };
     let mut v = Vec::new();
     for &kind in kinds {
         for (i, &n) in HUGE_SIZES.iter().enumerate() {
-            for pattern in 0..3u8 {
+            for pattern in 0..(if prop == 6 { 4u8 } else { 3u8 }) {
                 // C03/C08 visit a third of the grid each run (the seed rotates it)
                 v.push(HugeCase { huge: true, kind, n, pattern, seed: (i as u64) * 31 + pattern as u64 });
             }
@@ -96,6 +96,7 @@ fn prio(pattern: u8, i: usize, n: usize) -> i64 {
     match pattern {
         0 => i as i64,
         1 => (n - i) as i64,
+        3 => (i % 5) as i64,
         _ => ((i as u64).wrapping_mul(0x9E37_79B9_7F4A_7C15) >> 45) as i64,
     }
 }
@@ -401,6 +402,64 @@ fn run<Q: Queue>(c: &HugeCase) -> R {
         }
         q.extend_with(crate::interp::hinted(&pairs, crate::case::Hint::Exact));
         verify(&q, &m, "extend", &mut st)?;
+    }
+    // sorted consumption of the whole (large) queue
+    {
+        let ids: Vec<u32> = q.clone().into_desc_vec().iter().map(|k| k.id).collect();
+        if ids.len() != m.len() {
+            return Err((Group::Sorted, "sorted", format!("into_sorted_vec / into_descending_sorted_vec returned {} of {} items", ids.len(), m.len())));
+        }
+        let mut last = i64::MAX;
+        let mut seen = std::collections::HashSet::with_capacity(ids.len());
+        for (j, id) in ids.iter().enumerate() {
+            let Some(&p) = m.by_id.get(id) else {
+                return Err((Group::Sorted, "sorted", format!("sorted vec contains item {} which is not stored", id)));
+            };
+            if !seen.insert(*id) {
+                return Err((Group::Sorted, "sorted", format!("sorted vec contains item {} twice", id)));
+            }
+            if p > last {
+                return Err((Group::Sorted, "sorted", format!("descending sorted vec: element #{} (item {}) has priority {} after {}", j, id, p, last)));
+            }
+            last = p;
+        }
+        if let Some(asc) = q.clone().into_asc_vec() {
+            let mut last = i64::MIN;
+            if asc.len() != m.len() {
+                return Err((Group::Sorted, "sorted", format!("into_ascending_sorted_vec returned {} of {} items", asc.len(), m.len())));
+            }
+            for (j, k) in asc.iter().enumerate() {
+                let p = m.by_id.get(&k.id).copied().unwrap_or(i64::MIN);
+                if p < last {
+                    return Err((Group::Sorted, "sorted", format!("ascending sorted vec: element #{} (item {}) has priority {} after {}", j, k.id, p, last)));
+                }
+                last = p;
+            }
+        }
+        // the iterator form, a few steps from either end
+        let mut it = q.clone().into_sorted_iter();
+        let mut set = m.set.clone();
+        for j in 0..24 {
+            let back = j % 3 == 2;
+            let got = if back { Q::sorted_back(&mut it).flatten() } else { it.next() }.map(|(k, p)| (p.v, k.id));
+            let want = if Q::DOUBLE {
+                if back { set.iter().next_back().map(|x| x.0) } else { set.iter().next().map(|x| x.0) }
+            } else {
+                if back { continue } else { set.iter().next_back().map(|x| x.0) }
+            };
+            match got {
+                Some((p, id)) => {
+                    if Some(p) != want || !set.remove(&(p, id)) {
+                        return Err((Group::Sorted, "sorted", format!("into_sorted_iter step {} ({}) yielded ({},{}) but the extreme of the rest is {:?}", j, if back { "next_back" } else { "next" }, id, p, want)));
+                    }
+                }
+                None => {
+                    if want.is_some() {
+                        return Err((Group::Sorted, "sorted", format!("into_sorted_iter step {} yielded None with {} left", j, set.len())));
+                    }
+                }
+            }
+        }
     }
     // retain, clear + refill, clone
     {
